@@ -614,6 +614,10 @@ func runFrame(fr *frame) {
 		}
 		fr.panicking = true
 		fr.panic = r
+		if _, isTarget := r.(targetPanic); isTarget && fr.i.p != nil && !fr.i.p.panicNoted {
+			fr.i.p.panicNoted = true
+			fr.i.p.panicLoc = fr.fn.String() + loc(fr.fn.Prog.Fset, curPos(fr))
+		}
 		if fr.i.cfg.Trace {
 			fmt.Fprintf(os.Stderr, "Panicking: %T %v.\n", fr.panic, fr.panic)
 		}
@@ -682,6 +686,9 @@ func executePhis(fr *frame) []ssa.Instruction {
 
 // doRecover implements the recover() built-in.
 func doRecover(caller *frame) value {
+	if caller != nil && caller.i.p != nil {
+		caller.i.p.panicNoted = false
+	}
 	// recover() must be exactly one level beneath the deferred
 	// function (two levels beneath the panicking function) to
 	// have any effect.  Thus we ignore both "defer recover()" and
